@@ -9,7 +9,7 @@
    consumed (POSTCONDITION AllConsumed); each event's verdict (ok / skip / a
    diagnosis) goes to the verdict file, so that one rejected event never hides
    the rest of the trace. *)
-EXTENDS SemOverflow, AsCodedOverflow, SemScaled, SemRounding, AsCodedRounding, AsCodedRConv, SemElastic, SemSqrt, SemFraction, SemWide, SemNative, SemParse, SemMath, AsCodedToChars, AsCodedMakeFraction, AsCodedExp2, TLC, TLCExt, Json, IOUtils, CSV
+EXTENDS SemOverflow, AsCodedOverflow, SemScaled, SemRounding, AsCodedRounding, AsCodedRConv, SemElastic, SemSqrt, SemFraction, SemWide, SemNative, SemParse, SemMath, AsCodedToChars, AsCodedMakeFraction, AsCodedDecFloat, AsCodedExp2, TLC, TLCExt, Json, IOUtils, CSV
 
 Tr == ndJsonDeserialize(IOEnv.TRACE)
 Insts == ndJsonDeserialize(IOEnv.INSTS)
@@ -101,13 +101,22 @@ AsCoded(e, i) ==
            \* integer -> integer scaling as coded (scaled/convert_operator.h): scale<k>(from_value<Result>(from)) is computed
            \* in the promoted SOURCE representation, then cast to the destination representation
            LET st == i.lt  dt == i.rt IN
+           \* floating point <-> a scale whose radix is not 2 (alg/AsCodedDecFloat.tla)
+           IF st.k = "float" /\ dt.k = "scaled" /\ dt.rep.k = "int" /\ dt.r # 2 THEN
+               e.l.c = "fin" /\ MatchesRConv(FloatToDecAsCoded(FinOf(e.l), dt.e, dt.r, st.p, AsIntT(dt.rep)), e.out, J(e.res))
+           ELSE IF st.k = "scaled" /\ dt.k = "float" /\ st.rep.k = "int" /\ st.r # 2 THEN
+               e.out = "ok" /\ SameFloat(e.res, DecToFloatAsCoded(J(e.l), st.e, st.r, dt.p))
+           ELSE
            IF st.k \in {"int", "scaled"} /\ dt.k \in {"int", "scaled"} /\ (st.k = "int" \/ st.rep.k = "int")
               /\ (dt.k = "int" \/ dt.rep.k = "int") /\ RadixOK(st, dt)
            THEN LET k == ExpOf(st) - ExpOf(dt)  r == CommonRadix(st, dt)
                     sr == AsIntT(InnerT(st))  dr == AsIntT(InnerT(dt))
                     x == TV(sr, J(e.l))
                     pw == TV(Promote(sr), WrapT(PowSmall(r, IF k < 0 THEN -k ELSE k), Promote(sr)))
-                    v == IF k > 0 THEN CBin("mul", x, pw) ELSE IF k < 0 THEN CBin("div", x, pw) ELSE x
+                    \* the power itself is built by repeated multiplication in that type: signed overflow there is undefined whatever x is
+                    pwUB == Promote(sr).s = 1 /\ ~InT(PowSmall(r, IF k < 0 THEN -k ELSE k), Promote(sr))
+                    v == IF k # 0 /\ pwUB THEN TVUB(Promote(sr))
+                         ELSE IF k > 0 THEN CBin("mul", x, pw) ELSE IF k < 0 THEN CBin("div", x, pw) ELSE x
                 IN MatchesRConv(CConv(v, dr), e.out, J(e.res))
            ELSE FALSE
       [] e.e = "RConv" ->
